@@ -19,8 +19,25 @@ EnumOK(e) == \E n \in {e.n} : \E m \in {TLCEval(Unpack(e.m, e.n))} : \E mi \in {
    /\ e.b = e.t
    /\ MatMul(m, mi) = IdM(2*n) /\ MatMul(mi, m) = IdM(2*n)
    /\ mi = InverseSp(m, n)
+\* ---- the counting functions for large n: |Sp(2n,F2)| = prod_{i=1..n} (4^i - 1) 2^(2i-1) exceeds 32 bits from n = 4 on, so the numbers are
+\*      carried as little-endian sequences of base-1000 limbs and multiplied here by factors < 2^21 (1000 * 2^21 < 2^31).
+BigNorm(x) == IF x = <<>> THEN <<0>> ELSE x
+BigMulSmall(x, k) ==          \* x * k
+   LET r == FoldLeft(LAMBDA acc, limb : [out |-> Append(acc.out, (limb * k + acc.carry) % 1000), carry |-> (limb * k + acc.carry) \div 1000], [out |-> <<>>, carry |-> 0], x)
+       RECURSIVE Flush(_, _)
+       Flush(out, c) == IF c = 0 THEN out ELSE Flush(Append(out, c % 1000), c \div 1000)
+   IN Flush(r.out, r.carry)
+RECURSIVE BigStrip(_)
+BigStrip(x) == IF Len(x) > 1 /\ x[Len(x)] = 0 THEN BigStrip(SubSeq(x, 1, Len(x) - 1)) ELSE x
+BigOrder(n) == FoldLeft(LAMBDA acc, i : BigMulSmall(BigMulSmall(acc, 4^i - 1), 2^(2*i - 1)), <<1>>, [i \in 1..n |-> i])
+BigProd(ks) == FoldLeft(LAMBDA acc, k : BigMulSmall(acc, k), <<1>>, ks)
+NumbersOK(e) == /\ e.nonneg                                              \* a negative "order" has no limbs
+                /\ BigStrip(e.order) = BigOrder(e.n)                      \* get_number(n, 'order')
+                /\ e.base = BaseSp(e.n) /\ BigProd(e.base) = BigOrder(e.n)   \* the mixed-radix bases and their product
+                /\ Len(e.coset) = e.n /\ \A i \in 1..e.n : BigStrip(e.coset[i]) = BigMulSmall(BigMulSmall(<<1>>, 4^i - 1), 2^(2*i - 1))
 Valid(e) ==
   CASE e.op = "enum" -> EnumOK(e)
+    [] e.op = "numbers" -> NumbersOK(e)
     [] e.op = "ft" -> LET n == Len(e.v0) \div 2 IN Transvect(Transvect(e.v0, e.h0, n), e.h1, n) = e.v1
     [] e.op = "rand" -> LET n == e.n  m == Unpack(e.m, n) IN InRange(e.t, n) /\ IsSymplectic(m, n) /\ e.b = e.t
     [] e.op = "index" -> LET n == e.n  m == Unpack(e.m, n) IN IsSymplectic(m, n) /\ InRange(e.t, n) /\ Unpack(e.m2, n) = m
